@@ -117,9 +117,17 @@ func (r *scriptRunnable) GetState() string {
 	return r.state
 }
 
+// IsRunning: readiness, once reached, stays (a script may later return to "New"; the supervisor's start-up gate
+// is not what this leg is about)
 func (r *scriptRunnable) IsRunning() bool {
-	s := r.GetState()
-	return s != "New" && s != "Booting"
+	r.mu.Lock()
+	defer r.mu.Unlock()
+	for _, e := range r.emits {
+		if e != "New" && e != "Booting" {
+			return true
+		}
+	}
+	return false
 }
 
 func (r *scriptRunnable) GetStateChan(ctx context.Context) <-chan string {
@@ -349,6 +357,7 @@ func runStScenario(sc StScenario) string {
 		if r.Reloadable {
 			bound += len(sc.HupAtMs)
 		}
+		bound++ // the snapshot that follows the launch store
 	}
 	time.Sleep(2 * time.Millisecond)
 	type subQ struct{ eq bool }
@@ -450,6 +459,9 @@ func genStScenario(r interface{ IntN(int) int }) StScenario {
 				t += 1 + r.IntN(6)
 			}
 			st := pick(r, states)
+			if r.IntN(9) == 0 {
+				st = "New" // back to the state recorded at launch (what a late subscriber's bookkeeping must cope with)
+			}
 			if r.IntN(4) == 0 {
 				st = run.Script[len(run.Script)-1].State // duplicate emission
 			}
@@ -481,6 +493,9 @@ func genStScenario(r interface{ IntN(int) int }) StScenario {
 var stCorpus = []StScenario{
 	// late subscription: the runnable is Running before the supervisor's GetStateChan registers (C06-F1)
 	{Runs: []StRun{{SubDelayMs: 6, Script: []StStep{{0, "Booting"}, {1, "Running"}}}}, Subs: []StSub{{ArriveMs: -1, Kind: "ctx"}}, End: "term"},
+	// late subscription, then the runnable returns to the state that was recorded at its launch
+	{Runs: []StRun{{SubDelayMs: 6, Script: []StStep{{0, "Booting"}, {1, "Running"}, {14, "New"}}}}, Subs: []StSub{{ArriveMs: -1, Kind: "ctx"}}, End: "term"},
+	{Runs: []StRun{{SubDelayMs: 5, Script: []StStep{{0, "Booting"}, {1, "Running"}, {12, "New"}, {16, "Running"}, {20, "Running"}}}, {Script: []StStep{{0, "Booting"}, {0, "Running"}}}}, Subs: []StSub{{ArriveMs: -1, Kind: "chan"}}, End: "shutdown"},
 	// duplicates and a burst; a subscriber from the start, one that leaves, one slow
 	{Runs: []StRun{{Script: []StStep{{0, "Booting"}, {1, "Running"}, {3, "Running"}, {3, "Busy"}, {3, "Running"}, {8, "Degraded"}}}, {Script: []StStep{{0, "Booting"}, {0, "Running"}}, Reloadable: true}},
 		Subs: []StSub{{ArriveMs: -1, Kind: "ctx"}, {ArriveMs: 2, LeaveMs: 6, Kind: "ctx"}, {ArriveMs: -1, Kind: "chan", Slow: true}}, HupAtMs: []int{5, 5, 12}, End: "shutdown"},
